@@ -68,6 +68,7 @@ done
         lp = "%s/out/%s.log" % (tmp, pr)
         if not os.path.exists(lp): continue
         lines = open(lp).read().splitlines()
+        os.makedirs("/tmp/seedlogs", exist_ok=True); shutil.copy(lp, "/tmp/seedlogs/%s_%s.log" % (id, pr))
         v = [l for l in lines if l.startswith("VIOLATION")]
         rc = [l for l in lines if l.startswith("rc=")]
         out[pr] = {"exit": int(rc[-1].split()[0][3:]) if rc else None, "seconds": int(rc[-1].split()[1][2:]) if rc else None, "violations": v[:6]}
